@@ -315,11 +315,25 @@ def sql_doc(rng):
     """(text, set of 0-based lines holding a broken statement); every statement sits on its own line and ends there"""
     lines, bad = [], set()
     for i in range(rng.randint(1, 6)):
-        if rng.random() < 0.35:
-            lines.append(rng.choice(BAD_SQL)); bad.add(i)
+        x = rng.random()
+        if x < 0.12:
+            # a statement spanning several lines whose offending token is not on its first line: the diagnostic belongs on
+            # the line of that token
+            text, off = rng.choice(BAD_MULTILINE)
+            bad.add(len(lines) + off)
+            lines.extend(text.split("\n"))
+        elif x < 0.40:
+            bad.add(len(lines)); lines.append(rng.choice(BAD_SQL))
+        elif x < 0.50:
+            lines.extend(rng.choice(GOOD_MULTILINE).split("\n"))
         else:
             lines.append(rng.choice(GOOD_SQL))
     return "\n".join(lines), bad
+
+
+BAD_MULTILINE = [("SELECT a\nFROM t\nWHERE ;", 2), ("SELECT a,\n  b\nFROM ;", 2), ("UPDATE t\nSET ;", 1), ("SELECT *\nFROM t\nWHERE a = 1\nORDER ;", 3),
+                 ("INSERT INTO t (a)\nVALUES ;", 1)]
+GOOD_MULTILINE = ["SELECT a\nFROM t\nWHERE a = 1;", "UPDATE t\nSET a = 1;", "SELECT a,\n  b\nFROM t;"]
 
 
 class Conv:
